@@ -1,3 +1,546 @@
-/-! Model for property C17 (core Lean only; no Mathlib). -/
+/-! Model for property C17: tree navigation (`pytreenet/core/tree_structure.py`), the TDVP update
+path (`pytreenet/time_evolution/time_evo_util/update_path.py`) and the keys created by
+`SandwichCache.init_cache_but_one` (`pytreenet/contractions/sandwich_caching.py`).
+Core Lean only.
+
+Two models live here, both executable and both compared with the code on every run:
+
+* `FTree` - the *flat mirror* of `TreeStructure`: the `_nodes` dict as an association list in dict
+  insertion order, every node with `parent : Option Nat` and `children : List Nat`, plus `root_id`.
+  The Python routines are ported line by line on it (`…F`); recursion over the object graph is
+  bounded by fuel (`#nodes + 1`), `KeyError`/`IndexError`/`AssertionError`/`ValueError` are `none`.
+* `RTree` - ordered rooted trees.  The specifications (adjacency, simple paths, degree, depth) and a
+  *structural* version of every routine whose result does not depend on the dict order live here;
+  the theorems of `Props.lean` are about these.  The list algorithms that carry the delicate logic
+  (`mergeRootPaths`: duplicate count and the two slices of `path_from_to`; `argmaxFirst`:
+  `max(d, key=d.get)`; `dictUpdate`) are shared by both models.
+-/
 namespace Ptn.C17
+
+/-! ## List algorithms shared by both models -/
+
+/-- Python `l[:k]` for an integer stop `k` (negative: counted from the end, clipped at 0). -/
+def pySliceTo (l : List Nat) (k : Int) : List Nat :=
+  if 0 ≤ k then l.take k.toNat else l.take (l.length - k.natAbs)
+
+/-- `len([j for j in combined if combined.count(j) != 1]) // 2` -/
+def numDuplicates (combined : List Nat) : Nat :=
+  (combined.filter (fun j => combined.count j != 1)).length / 2
+
+/-- The body of `path_from_to` after the two root paths are known. -/
+def mergeRootPaths (p1 p2 : List Nat) : List Nat :=
+  let d : Int := (numDuplicates (p1 ++ p2) : Nat)
+  let s1 := if -d + 1 != 0 then pySliceTo p1 (-d + 1) else p1
+  let s2 := pySliceTo p2 (-d)
+  s1 ++ s2.reverse
+
+/-- `max(d, key=d.get)` for a dict given as association list: the first key with the largest
+    value; `none` (ValueError) on the empty dict. -/
+def argmaxGo (bk bv : Nat) : List (Nat × Nat) → Nat
+  | [] => bk
+  | (k, v) :: rest => if bv < v then argmaxGo k v rest else argmaxGo bk bv rest
+
+def argmaxFirst : List (Nat × Nat) → Option Nat
+  | [] => none
+  | (k, v) :: rest => some (argmaxGo k v rest)
+
+/-- `d[k] = v` on an insertion-ordered dict. -/
+def dictSet (d : List (Nat × Nat)) (k v : Nat) : List (Nat × Nat) :=
+  if d.any (fun e => e.1 == k) then d.map (fun e => if e.1 == k then (k, v) else e)
+  else d ++ [(k, v)]
+
+/-- `d.update(new)` -/
+def dictUpdate (d new : List (Nat × Nat)) : List (Nat × Nat) :=
+  new.foldl (fun acc e => dictSet acc e.1 e.2) d
+
+def incr (d : List (Nat × Nat)) : List (Nat × Nat) := d.map (fun e => (e.1, e.2 + 1))
+
+/-! ## The flat mirror -/
+
+structure GNode where
+  parent : Option Nat
+  children : List Nat
+deriving Repr, BEq, DecidableEq
+
+/-- `neighbouring_nodes()`: the parent first, then the children. -/
+def GNode.neighbours (n : GNode) : List Nat := n.parent.toList ++ n.children
+
+structure FTree where
+  nodes : List (Nat × GNode)
+  root : Option Nat
+
+namespace FTree
+
+def get? (ft : FTree) (x : Nat) : Option GNode := ft.nodes.lookup x
+def fuel (ft : FTree) : Nat := ft.nodes.length + 1
+
+/-- `find_path_to_root` -/
+def findPathToRootF (ft : FTree) : Nat → Nat → Option (List Nat)
+  | 0, _ => none
+  | f + 1, x => do
+    let n ← ft.get? x
+    match n.parent with
+    | none => some [x]
+    | some p => do
+      let rest ← findPathToRootF ft f p
+      some (x :: rest)
+
+def findPathToRoot (ft : FTree) (x : Nat) : Option (List Nat) := findPathToRootF ft ft.fuel x
+
+/-- `path_from_to` -/
+def pathFromTo (ft : FTree) (a b : Nat) : Option (List Nat) :=
+  if a = b then some [a] else do
+    let p1 ← ft.findPathToRoot a
+    let p2 ← ft.findPathToRoot b
+    some (mergeRootPaths p1 p2)
+
+/-- `_distance_to_node_rec(center, last)` -/
+def distRecF (ft : FTree) : Nat → Nat → Nat → Option (List (Nat × Nat))
+  | 0, _, _ => none
+  | f + 1, c, last => do
+    let n ← ft.get? c
+    let nbs := n.neighbours
+    if !nbs.contains last then none else        -- list.remove raises ValueError
+    (nbs.erase last).foldlM (fun dd nb => do
+        let sub ← distRecF ft f nb c
+        pure (dictUpdate dd (incr sub))) [(c, 0)]
+
+/-- `distance_to_node` -/
+def distanceToNode (ft : FTree) (c : Nat) : Option (List (Nat × Nat)) := do
+  let n ← ft.get? c                                -- ensure_existence
+  n.neighbours.foldlM (fun dd nb => do
+      let sub ← distRecF ft ft.fuel nb c
+      pure (dictUpdate dd (incr sub))) [(c, 0)]
+
+/-- `find_subtree_of_node` (keys of the returned dict, in order; dict keys are merged) -/
+def subtreeF (ft : FTree) : Nat → Nat → Option (List Nat)
+  | 0, _ => none
+  | f + 1, x => do
+    let n ← ft.get? x
+    if n.children.isEmpty then some [x] else
+    n.children.foldlM (fun acc c => do
+        let sub ← subtreeF ft f c
+        pure (acc ++ sub.filter (fun k => !acc.contains k))) [x]
+
+def subtree (ft : FTree) (x : Nat) : Option (List Nat) := subtreeF ft ft.fuel x
+
+/-- `leaves_under_node` -/
+def leavesUnderF (ft : FTree) : Nat → Nat → Option (List Nat)
+  | 0, _ => none
+  | f + 1, x => do
+    let n ← ft.get? x
+    if n.children.isEmpty then some [x] else
+    n.children.foldlM (fun acc c => do
+        let sub ← leavesUnderF ft f c
+        pure (acc ++ sub.filter (fun k => !acc.contains k))) []
+
+def leavesUnder (ft : FTree) (x : Nat) : Option (List Nat) := leavesUnderF ft ft.fuel x
+
+/-- `find_subtree_size_of_node` -/
+def subtreeSizeF (ft : FTree) : Nat → Nat → Option Nat
+  | 0, _ => none
+  | f + 1, x => do
+    let n ← ft.get? x
+    if n.children.isEmpty then some 1 else
+    n.children.foldlM (fun acc c => do
+        let s ← subtreeSizeF ft f c
+        pure (acc + s)) 1
+
+def subtreeSize (ft : FTree) (x : Nat) : Option Nat := subtreeSizeF ft ft.fuel x
+
+/-- `get_leaves` (dict order) -/
+def getLeaves (ft : FTree) : List Nat :=
+  (ft.nodes.filter (fun e => e.2.children.isEmpty)).map (·.1)
+
+/-- `nearest_neighbours` (dict order, then child order) -/
+def nearestNeighbours (ft : FTree) : List (Nat × Nat) :=
+  ft.nodes.flatMap (fun e => e.2.children.map (fun c => (e.1, c)))
+
+/-- `_linearised_rec` -/
+def lineariseF (ft : FTree) : Nat → Nat → Option (List Nat)
+  | 0, _ => none
+  | f + 1, x => do
+    let n ← ft.get? x
+    let below ← n.children.foldlM (fun acc c => do
+        let sub ← lineariseF ft f c
+        pure (acc ++ sub)) []
+    some (below ++ [x])
+
+/-- `linearise` -/
+def linearise (ft : FTree) : Option (List Nat) :=
+  match ft.root with
+  | none => some []
+  | some r => lineariseF ft ft.fuel r
+
+/-! ### `TDVPUpdatePathFinder` -/
+
+/-- `find_start_node_id` -/
+def findStart (ft : FTree) : Option Nat := do
+  let r ← ft.root                      -- ensure_existence(None) raises
+  let d ← ft.distanceToNode r
+  argmaxFirst d
+
+/-- `_path_for_branch_rec` -/
+def branchRecF (ft : FTree) : Nat → Nat → Option (List Nat)
+  | 0, _ => none
+  | f + 1, x => do
+    let n ← ft.get? x
+    if n.children.isEmpty then some [x] else do
+    let below ← n.children.foldlM (fun acc c => do
+        let sub ← branchRecF ft f c
+        pure (acc ++ sub)) []
+    some (below ++ [x])
+
+def branchRec (ft : FTree) (x : Nat) : Option (List Nat) := branchRecF ft ft.fuel x
+
+def branchesThen (ft : FTree) (childIds : List Nat) (origin : Nat) : Option (List Nat) := do
+  let below ← childIds.foldlM (fun acc c => do
+      let sub ← ft.branchRec c
+      pure (acc ++ sub)) []
+  some (below ++ [origin])
+
+/-- `path_for_branch` -/
+def pathForBranch (ft : FTree) (mainPath : List Nat) (origin : Nat) : Option (List Nat) := do
+  let n ← ft.get? origin
+  ft.branchesThen (n.children.filter (fun c => !mainPath.contains c)) origin
+
+/-- `find_furthest_non_visited_leaf` -/
+def furthestNonVisitedLeaf (ft : FTree) (path : List Nat) : Option Nat := do
+  let nonVisited := ft.getLeaves.filter (fun l => !path.contains l)
+  let r ← ft.root
+  let d ← ft.distanceToNode r
+  let leafD := d.filter (fun e => nonVisited.contains e.1)
+  argmaxFirst leafD                      -- the assert and max() of an empty dict both raise
+
+/-- `find_main_path_down_from_root` -/
+def mainPathDown (ft : FTree) (path : List Nat) : Option (List Nat) := do
+  let fin ← ft.furthestNonVisitedLeaf path
+  let p ← ft.findPathToRoot fin
+  some p.reverse
+
+/-- `_branch_downwards_origin_is_root`: the tuple `(main_path[-2], main_path_down[1])` is evaluated
+    once per child, so it raises only if the root has a child. -/
+def branchDownRoot (ft : FTree) (mainPath mpd : List Nat) : Option (List Nat) := do
+  let r ← ft.root
+  let n ← ft.get? r
+  let keep ← if n.children.isEmpty then some [] else do
+      let a ← if 2 ≤ mainPath.length then mainPath[mainPath.length - 2]? else none
+      let b ← mpd[1]?
+      some (n.children.filter (fun c => !(c == a || c == b)))
+  ft.branchesThen keep r
+
+/-- `_branch_path_downwards` -/
+def branchDown (ft : FTree) (origin : Nat) (mpd : List Nat) : Option (List Nat) := do
+  let n ← ft.get? origin
+  ft.branchesThen (n.children.filter (fun c => !mpd.contains c)) origin
+
+/-- `path_down_from_root` -/
+def pathDownFromRoot (ft : FTree) (mainPath path : List Nat) : Option (List Nat) := do
+  let r ← ft.root
+  let n ← ft.get? r
+  if n.children.length == 1 then some [r] else do
+  let mpd ← ft.mainPathDown path
+  mpd.foldlM (fun acc origin => do
+      let bp ← if origin == r then ft.branchDownRoot mainPath mpd else ft.branchDown origin mpd
+      pure (acc ++ bp)) []
+
+/-- `__init__` (start, main_path) and `find_path` -/
+def updatePath (ft : FTree) : Option (List Nat) := do
+  let start ← ft.findStart
+  let mainPath ← ft.findPathToRoot start
+  mainPath.foldlM (fun path origin => do
+      let ext ← if some origin != ft.root then ft.pathForBranch mainPath origin
+                else ft.pathDownFromRoot mainPath path
+      pure (path ++ ext)) []
+
+/-! ### `_find_caching_path` / `init_cache_but_one` (keys only) -/
+
+/-- `_find_caching_path_rec`; state = (caching_path, next_id_dict) -/
+def cachingRecF (ft : FTree) (initialPath : List Nat) :
+    Nat → Nat → List Nat × List (Nat × Nat) → Option (List Nat × List (Nat × Nat))
+  | 0, _, _ => none
+  | f + 1, x, st => do
+    let n ← ft.get? x
+    let newChildren := n.children.filter (fun c => !initialPath.contains c)
+    let (cp, nd) ← newChildren.foldlM (fun st c => cachingRecF ft initialPath f c st) st
+    let last ← initialPath.getLast?
+    let nd ← if !(nd.any (fun e => e.1 == x)) && x != last then
+               (match n.parent with
+                | none => none                       -- assert node.parent is not None
+                | some p => some (dictSet nd x p))
+             else some nd
+    some (cp ++ [x], nd)
+
+/-- keys of the cache after `init_cache_but_one(state, hamiltonian, left_out)`, in creation order -/
+def cacheKeys (ft : FTree) (leftOut : Nat) : Option (List (Nat × Nat)) := do
+  let up ← ft.findPathToRoot leftOut
+  let initialPath := up.reverse
+  let nd0 := (initialPath.zip (initialPath.drop 1))
+  let (cp, nd) ← initialPath.foldlM (fun st x => cachingRecF ft initialPath ft.fuel x st) ([], nd0)
+  cp.dropLast.mapM (fun x => do
+      let nxt ← nd.lookup x
+      pure (x, nxt))
+
+end FTree
+
+/-! ## Ordered rooted trees: specifications and structural versions -/
+
+inductive RTree where
+  | node (id : Nat) (kids : List RTree)
+deriving Repr
+
+namespace RTree
+
+def rid : RTree → Nat
+  | node i _ => i
+
+def kids : RTree → List RTree
+  | node _ ks => ks
+
+mutual
+/-- node identifiers in pre-order -/
+def ids : RTree → List Nat
+  | node i ks => i :: idsL ks
+def idsL : List RTree → List Nat
+  | [] => []
+  | t :: ts => ids t ++ idsL ts
+end
+
+/-- identifiers are distinct: the trees `TreeStructure` can hold -/
+def WF (t : RTree) : Prop := (ids t).Nodup
+
+mutual
+/-- (parent, child) pairs -/
+def edges : RTree → List (Nat × Nat)
+  | node i ks => edgesL i ks
+def edgesL (p : Nat) : List RTree → List (Nat × Nat)
+  | [] => []
+  | t :: ts => (p, t.rid) :: (edges t ++ edgesL p ts)
+end
+
+/-- adjacency of the underlying undirected graph -/
+def Adj (t : RTree) (a b : Nat) : Prop := (a, b) ∈ edges t ∨ (b, a) ∈ edges t
+
+instance (t : RTree) (a b : Nat) : Decidable (Adj t a b) := by unfold Adj; infer_instance
+
+/-- consecutive elements are related -/
+def Chain (R : Nat → Nat → Prop) : List Nat → Prop
+  | [] => True
+  | [_] => True
+  | a :: b :: rest => R a b ∧ Chain R (b :: rest)
+
+/-- `p` is a simple path from `a` to `b` in the graph of `t` -/
+def IsSimplePath (t : RTree) (p : List Nat) (a b : Nat) : Prop :=
+  p.head? = some a ∧ p.getLast? = some b ∧ (∀ x ∈ p, x ∈ ids t) ∧
+    Chain (Adj t) p ∧ p.Nodup
+
+/-- number of neighbours -/
+def degree (t : RTree) (x : Nat) : Nat :=
+  ((edges t).filter (fun e => e.1 == x || e.2 == x)).length
+
+mutual
+/-- `linearise` / `_path_for_branch_rec`: children (in order) before the node -/
+def postorder : RTree → List Nat
+  | node i ks => postorderL ks ++ [i]
+def postorderL : List RTree → List Nat
+  | [] => []
+  | t :: ts => postorder t ++ postorderL ts
+end
+
+mutual
+/-- `distance_to_node(root)`: (id, depth) in pre-order -/
+def depths : Nat → RTree → List (Nat × Nat)
+  | d, node i ks => (i, d) :: depthsL (d + 1) ks
+def depthsL : Nat → List RTree → List (Nat × Nat)
+  | _, [] => []
+  | d, t :: ts => depths d t ++ depthsL d ts
+end
+
+mutual
+/-- the path from the root down to `a` -/
+def pathDown (a : Nat) : RTree → Option (List Nat)
+  | node i ks => if i = a then some [i] else (pathDownL a ks).map (fun p => i :: p)
+def pathDownL (a : Nat) : List RTree → Option (List Nat)
+  | [] => none
+  | t :: ts =>
+    match pathDown a t with
+    | some p => some p
+    | none => pathDownL a ts
+end
+
+/-- `find_path_to_root` -/
+def rootPath (t : RTree) (a : Nat) : Option (List Nat) := (pathDown a t).map List.reverse
+
+/-- `path_from_to` -/
+def pathFromTo (t : RTree) (a b : Nat) : Option (List Nat) :=
+  if a = b then some [a] else do
+    let p1 ← rootPath t a
+    let p2 ← rootPath t b
+    some (mergeRootPaths p1 p2)
+
+mutual
+def subtreeAt (a : Nat) : RTree → Option RTree
+  | node i ks => if i = a then some (node i ks) else subtreeAtL a ks
+def subtreeAtL (a : Nat) : List RTree → Option RTree
+  | [] => none
+  | t :: ts =>
+    match subtreeAt a t with
+    | some s => some s
+    | none => subtreeAtL a ts
+end
+
+mutual
+/-- `leaves_under_node` of the root -/
+def leavesOf : RTree → List Nat
+  | node i ks => if ks.isEmpty then [i] else leavesOfL ks
+def leavesOfL : List RTree → List Nat
+  | [] => []
+  | t :: ts => leavesOf t ++ leavesOfL ts
+end
+
+mutual
+/-- `find_subtree_size_of_node` of the root -/
+def size : RTree → Nat
+  | node _ ks => if ks.isEmpty then 1 else 1 + sizeL ks
+def sizeL : List RTree → Nat
+  | [] => 0
+  | t :: ts => size t + sizeL ts
+end
+
+/-- `find_subtree_of_node` (keys) -/
+def subtreeIds (t : RTree) (x : Nat) : Option (List Nat) := (subtreeAt x t).map ids
+/-- `leaves_under_node` (keys) -/
+def leavesUnder (t : RTree) (x : Nat) : Option (List Nat) := (subtreeAt x t).map leavesOf
+/-- `find_subtree_size_of_node` -/
+def subtreeSize (t : RTree) (x : Nat) : Option Nat := (subtreeAt x t).map size
+
+mutual
+/-- The tree re-rooted at `c`; `up` is the (already re-rooted) part above, hung in first as the
+    parent comes first in `neighbouring_nodes()`. -/
+def reroot (c : Nat) : List RTree → RTree → Option RTree
+  | up, node i ks => if i = c then some (node i (up ++ ks)) else rerootL c i up [] ks
+def rerootL (c i : Nat) (up : List RTree) : List RTree → List RTree → Option RTree
+  | _, [] => none
+  | pre, k :: post =>
+    match reroot c [node i (up ++ pre ++ post)] k with
+    | some r => some r
+    | none => rerootL c i up (pre ++ [k]) post
+end
+
+/-- `distance_to_node(c)` -/
+def distanceToNode (t : RTree) (c : Nat) : Option (List (Nat × Nat)) :=
+  (reroot c [] t).map (depths 0)
+
+/-! ### The update path -/
+
+mutual
+/-- Upward sweep inside a subtree: from the start node `s` up to the root of the subtree, every
+    branch off the way in post-order before its origin (`path_for_branch` along `main_path`). -/
+def sweepUp (s : Nat) : RTree → Option (List Nat)
+  | node r ks => if r = s then some (postorderL ks ++ [r]) else sweepUpL s r [] ks
+def sweepUpL (s r : Nat) : List RTree → List RTree → Option (List Nat)
+  | _, [] => none
+  | pre, k :: post =>
+    match sweepUp s k with
+    | some p => some (p ++ postorderL (pre ++ post) ++ [r])
+    | none => sweepUpL s r (pre ++ [k]) post
+end
+
+mutual
+/-- Downward sweep inside a subtree toward the final leaf `f` (`_branch_path_downwards` along
+    `main_path_down`). -/
+def sweepDown (f : Nat) : RTree → Option (List Nat)
+  | node x ks => if x = f then some (postorderL ks ++ [x]) else sweepDownL f x [] ks
+def sweepDownL (f x : Nat) : List RTree → List RTree → Option (List Nat)
+  | _, [] => none
+  | pre, k :: post =>
+    match sweepDown f k with
+    | some p => some (postorderL (pre ++ post) ++ [x] ++ p)
+    | none => sweepDownL f x (pre ++ [k]) post
+end
+
+/-- `find_start_node_id` -/
+def findStart (t : RTree) : Option Nat := argmaxFirst (depths 0 t)
+
+/-- `find_furthest_non_visited_leaf` -/
+def furthestNonVisitedLeaf (t : RTree) (path : List Nat) : Option Nat :=
+  argmaxFirst ((depths 0 t).filter (fun e => (leavesOf t).contains e.1 && !path.contains e.1))
+
+/-- `TDVPUpdatePathFinder(t).find_path()`.  The sweeps inside the subtrees are the structural
+    recursions above; the step at the root is written as in the Python. -/
+def updatePath : RTree → Option (List Nat)
+  | node r ks => do
+    let t := node r ks
+    let s ← findStart t
+    let mainPath ← rootPath t s
+    -- loop over main_path[:-1]
+    let up ← if r = s then some [] else ks.findSome? (sweepUp s)
+    -- path_down_from_root(up)
+    if ks.length == 1 then some (up ++ [r]) else do
+    let f ← furthestNonVisitedLeaf t up
+    let mpd ← pathDown f t
+    let keep ← if ks.isEmpty then some [] else do
+        let a ← if 2 ≤ mainPath.length then mainPath[mainPath.length - 2]? else none
+        let b ← mpd[1]?
+        some (ks.filter (fun k => !(k.rid == a || k.rid == b)))
+    let down ← match mpd with
+      | _ :: b :: _ => (ks.find? (fun k => k.rid == b)).bind (sweepDown f)
+      | _ => some []
+    some (up ++ postorderL keep ++ [r] ++ down)
+
+/-! ### Keys of the initial cache -/
+
+mutual
+/-- blocks of a subtree hanging below `p`: post-order, all pointing upward -/
+def upKeys (p : Nat) : RTree → List (Nat × Nat)
+  | node i ks => upKeysL i ks ++ [(i, p)]
+def upKeysL (p : Nat) : List RTree → List (Nat × Nat)
+  | [] => []
+  | t :: ts => upKeys p t ++ upKeysL p ts
+end
+
+mutual
+/-- keys created by `init_cache_but_one(…, c)` in creation order -/
+def cacheKeys (c : Nat) : RTree → Option (List (Nat × Nat))
+  | node i ks => if i = c then some (upKeysL i ks) else cacheKeysL c i [] ks
+def cacheKeysL (c i : Nat) : List RTree → List RTree → Option (List (Nat × Nat))
+  | _, [] => none
+  | pre, k :: post =>
+    match cacheKeys c k with
+    | some rest => some (upKeysL i (pre ++ post) ++ [(i, k.rid)] ++ rest)
+    | none => cacheKeysL c i (pre ++ [k]) post
+end
+
+mutual
+/-- the flat mirror of a tree in depth-first insertion order -/
+def flattenAux (p : Option Nat) : RTree → List (Nat × GNode)
+  | node i ks => (i, ⟨p, ks.map rid⟩) :: flattenL (some i) ks
+def flattenL (p : Option Nat) : List RTree → List (Nat × GNode)
+  | [] => []
+  | t :: ts => flattenAux p t ++ flattenL p ts
+end
+
+def flatten (t : RTree) : FTree := ⟨flattenAux none t, some t.rid⟩
+
+end RTree
+
+/-! ## From the flat mirror to the tree (used by the driver) -/
+
+def FTree.buildF (ft : FTree) : Nat → Nat → Option RTree
+  | 0, _ => none
+  | f + 1, x => do
+    let n ← ft.get? x
+    let ks ← n.children.mapM (FTree.buildF ft f)
+    some (RTree.node x ks)
+
+/-- The tree a consistent flat mirror stands for: `ft` has to be a rearrangement of
+    `flatten t` (same entries, any dict order). -/
+def FTree.toRTree (ft : FTree) : Option RTree := do
+  let r ← ft.root
+  let t ← ft.buildF ft.fuel r
+  let fl := (RTree.flatten t).nodes
+  if fl.length == ft.nodes.length
+      && ft.nodes.all (fun e => fl.lookup e.1 == some e.2)
+      && (RTree.ids t).all (fun x => (RTree.ids t).count x == 1) then some t else none
+
 end Ptn.C17
